@@ -1018,7 +1018,7 @@ class Watcher(object):
         elif self.send_hup:
             for process in self.processes.values():
                 logger.info("SENDING HUP to %s" % process.pid)
-                process.send_signal(signal.SIGHUP)
+                self.send_signal(process.pid, signal.SIGHUP)
         else:
             if sequential:
                 active_processes = self.get_active_processes()
